@@ -239,6 +239,20 @@ def _transition_cases(ctx, ad, cfg, env, runner, rng, episodes, fan_states, only
                     idx = list(rng.choice(idx, 64, replace=False))
             for i in idx:
                 cases.append((r, fa[int(i)], tree_index(s2s, int(i)), tree_index(tss, int(i))))
+    # consistent states supplied by the adapter that play rarely reaches: every action (C09) / every illegal action (C05) from them
+    if hasattr(ad, "consistent_states"):
+        for s in ad.consistent_states(env, runner, rng, max(4, fan_states)):
+            r = {"reset": False, "seed": None, "t": None, "policy": "synthetic", "state": s, "ts_prev": None}
+            fa = ad.fan_actions(env, s, None, rng, cap=64)
+            s2s, tss = runner.fan(s, fa)
+            idx = list(range(len(fa)))
+            if only_illegal:
+                js = ad.ser_state(env, s)
+                reps = drv.batch([_req(ad, "step", cfg, state=js, action=ad.ser_action(env, a),
+                                       **_draw_kw(ad, env, s, a, tree_index(s2s, i), tree_index(tss, i))) for i, a in enumerate(fa)])
+                idx = [i for i, m in enumerate(reps) if not isinstance(m, DriverError) and not np.all(np.asarray(m["valid"]).astype(bool))]
+            for i in idx:
+                cases.append((r, fa[int(i)], tree_index(s2s, int(i)), tree_index(tss, int(i))))
     return cases
 
 
@@ -356,6 +370,27 @@ def _c07(ctx, ad, cfg, env, runner, rng, drv, mult):
         cases = [(r, r["action"], r["next"], r["ts"]) for r in rollouts(ad, env, runner, rng, budget(ctx, 5, 20) * mult)
                  if not r["reset"] and int(r["ts"].step_type) != 2]
         _judge(ctx, ad, cfg, env, cases, drv, ["conserved"], "conserved")
+    # adapters may supply consistent states that play rarely reaches (boxes already parked on targets next to other boxes, …):
+    # every action from such a state must lead to a consistent state again (unless the step is LAST)
+    if hasattr(ad, "consistent_states"):
+        acts = ad._acts(env)
+        for s in ad.consistent_states(env, runner, rng, budget(ctx, 16, 120) * mult):
+            js = ad.ser_state(env, s)
+            st = drv.batch([_req(ad, "state", cfg, state=js)])[0]
+            if isinstance(st, DriverError) or st.get("consistent") is not True:
+                ctx.count(f"{ad.name}.synthetic_state_not_consistent")
+                continue
+            fan = ad.fan_actions(env, s, None, rng) if len(acts) > 64 else acts
+            s2s, tss = runner.fan(s, fan)
+            nxt = [(i, tree_index(s2s, i)) for i in range(len(fan)) if int(np.asarray(tss.step_type)[i]) != 2]
+            reps = drv.batch([_req(ad, "state", cfg, state=ad.ser_state(env, s2)) for (_, s2) in nxt])
+            for (i, s2), st2 in zip(nxt, reps):
+                ctx.evaluations += 1
+                ctx.nontrivial.add((ad.name, "synthetic", state_key(js), i))
+                if isinstance(st2, DriverError) or st2.get("consistent") is False:
+                    ctx.fail(ad.name, "consistent:consistent", "Lean predicate consistent is false after one action from a consistent synthetic state",
+                             {"env": ad.name, "config": cfg.cid, "state": js, "action": ad.ser_action(env, fan[i]), "failing_state": ad.ser_state(env, s2)})
+                ctx.count(f"{ad.name}.consistent.synthetic")
 
 
 # --------------------------------------------------------------------------------------
